@@ -134,6 +134,7 @@ def task_cases(ctx, n):
     cases = [('tcp', 20, 70, 'rrrrcsr'), ('tcp', 20, 70, 'crcr'), (f'tls:{certs}', 20, 70, 'rcrcr'), ('tcp', 10, 10, 'rrs'), ('tcp', 20, 70, 's'),
              ('tcp', 20, 70, 'rrrrrr'), (f'tls:{certs}', 15, 100, 'cccc'), ('tcp', 5, 40, 'rrrrsrrrr'),
              ('tcp', 20, 70, 'drr'), ('tcp', 20, 70, 'rdcdr'), ('tcp', 15, 100, 'ddd'),
+             ('tcp', 20, 70, 'rrer'), ('tcp', 10, 100, 'rrrerr'), ('tcp', 20, 70, 'er'), ('tcp', 30, 70, 'qr'), ('tcp', 20, 70, 'rqqr'), ('tcp', 20, 70, 'qqe'), ('tcp', 15, 100, 'rqer'),
              ('rtu', 20, 70, 'rrror'), ('rtu', 20, 70, 'oro'), ('rtu', 10, 40, 'rrrrr'), ('rtu', 20, 70, 'o'),
              ('rtuserver', 20, 70, 'rrror'), ('rtuserver', 20, 70, 'oro'), ('rtuserver', 10, 40, 'rrrrr'), ('rtuserver', 20, 70, 'o')]
     while len(cases) < n:
@@ -144,7 +145,7 @@ def task_cases(ctx, n):
         if w > 0.7:
             cases.append(('rtu' if w > 0.85 else 'rtuserver', mn, mx, ''.join(r.choices('ro', weights=(5, 2), k=ln))))
             continue
-        script = ''.join(r.choices('rc' if tls else 'rcsd', weights=(5, 2) if tls else (5, 1, 2, 1), k=ln))
+        script = ''.join(r.choices('rc' if tls else 'rcsdeq', weights=(5, 2) if tls else (5, 1, 2, 1, 1, 1), k=ln))
         cases.append((f'tls:{certs}' if tls else 'tcp', mn, mx, script))
     return cases
 
@@ -156,6 +157,12 @@ def task_to_coq(c):
     for ch in script:
         if ch == 'd':
             evs += ['AttemptFails', 'Interrupt']    # refused; the wait is abandoned by disable + enable
+            ops += ['Fail']
+        elif ch == 'e':
+            evs += ['AttemptOk', 'Interrupt']       # connected, then ended by disable + enable: no wait, but a reset
+            ops += ['Reset']
+        elif ch == 'q':
+            evs += ['AttemptFails', 'Elapsed']      # refused; a request submitted during the wait changes nothing
             ops += ['Fail']
         elif ch == 'r' or (tls and ch == 'c'):
             evs += ['AttemptFails', 'Elapsed']      # refused, or the TLS handshake fails: a failed connect
@@ -228,7 +235,7 @@ def run_task_level(ctx):
             # thorough: additionally ALL connect-outcome sequences of length <= 4 for every task variant (20/70 ms)
             import itertools
             certs = os.path.join(vlib.REPO, 'certs', 'ca_chain')
-            for variant, letters in (('tcp', 'rcs'), (f'tls:{certs}', 'rc'), ('rtu', 'ro'), ('rtuserver', 'ro')):
+            for variant, letters in (('tcp', 'rcseq'), (f'tls:{certs}', 'rc'), ('rtu', 'ro'), ('rtuserver', 'ro')):
                 for ln in (1, 2, 3, 4):
                     for sc in itertools.product(letters, repeat=ln):
                         cases.append((variant, 20, 70, ''.join(sc)))
@@ -253,15 +260,17 @@ def run_task_level(ctx):
         js = task_judge(im[0], bo[0])
         if not js or js[0] != key:
             small, im, bo, js = c, [i], [b], j
-        ctx.violation(key, f'{"RTU server" if small[0] == "rtuserver" else small[0].split(":")[0] + " client"} task, retry {small[1]}..{small[2]} ms, connect outcomes "{small[3]}" (r=refused/no device c=accepted+closed s=served o=port opened then lost): {js[1]}',
+        ctx.violation(key, f'{"RTU server" if small[0] == "rtuserver" else small[0].split(":")[0] + " client"} task, retry {small[1]}..{small[2]} ms, connect outcomes "{small[3]}" (r=refused/no device c=accepted+closed s=served o=port opened then lost d=refused+disable/enable during the wait e=connected then disable/enable q=refused+request during the wait): {js[1]}',
                       {'task_cases': [list(small)], 'impl': im[0], 'model|spec': bo[0], 'original_case': list(c)},
                       no_failing_input=(key == 'task.model-differs-from-impl'))
     ctx.oblige('correspondence:task-level-delays', bad == 0, f'{bad} of {len(cases)} scenarios differ')
-    tcls = {'with_disable_during_wait': 0, 'wait_abandoned_by_disable': 0, 'tcp': 0, 'tls': 0, 'rtu': 0, 'rtuserver': 0, 'rtuserver_followed_script': 0, 'with_port_opened': 0, 'with_served': 0, 'with_accept_close': 0, 'three_refused_in_a_row': 0, 'capped': 0, 'announcements': 0}
+    tcls = {'with_disable_while_connected': 0, 'with_request_during_wait': 0, 'with_disable_during_wait': 0, 'wait_abandoned_by_disable': 0, 'tcp': 0, 'tls': 0, 'rtu': 0, 'rtuserver': 0, 'rtuserver_followed_script': 0, 'with_port_opened': 0, 'with_served': 0, 'with_accept_close': 0, 'three_refused_in_a_row': 0, 'capped': 0, 'announcements': 0}
     for c, i in zip(cases, impl):
         tcls['tls' if c[0].startswith('tls') else c[0]] += 1
         tcls['with_port_opened'] += 'o' in c[3]
         tcls['with_disable_during_wait'] += 'd' in c[3]
+        tcls['with_disable_while_connected'] += 'e' in c[3]
+        tcls['with_request_during_wait'] += 'q' in c[3]
         tcls['wait_abandoned_by_disable'] += any(f.endswith('i') for f in i.split(','))
         tcls['rtuserver_followed_script'] += c[0] == 'rtuserver' and actual_case(c, i)[3] == c[3]
         tcls['with_served'] += 's' in c[3]
@@ -270,7 +279,7 @@ def run_task_level(ctx):
         tcls['capped'] += f'F{c[2] * MS}' in i
         tcls['announcements'] += len([f for f in i.split(',') if f])
     if not ctx.replay:
-        ctx.oblige('task-generator-reaches-expected-classes', all(tcls[k] >= 3 for k in ('tcp', 'tls', 'rtu', 'rtuserver', 'rtuserver_followed_script', 'with_port_opened', 'with_served', 'with_accept_close', 'three_refused_in_a_row', 'capped')), str(tcls))
+        ctx.oblige('task-generator-reaches-expected-classes', all(tcls[k] >= 3 for k in ('with_disable_while_connected', 'with_request_during_wait', 'tcp', 'tls', 'rtu', 'rtuserver', 'rtuserver_followed_script', 'with_port_opened', 'with_served', 'with_accept_close', 'three_refused_in_a_row', 'capped')), str(tcls))
     ctx.coverage['task_level'] = {
         'scenarios': len(cases),
         'distinct_nontrivial': len(set(c for c in cases if len(c[3]) >= 2)),
